@@ -47,6 +47,8 @@ impl<A: Actor> MailboxInner<A> {
             return Err(DeliverError::Closed(message));
         }
 
+        #[cfg(compio_verif)]
+        crate::verif::sched_point(crate::verif::SEND_CHECKED);
         self.messages
             .try_send(Delivering::<A>::from_msg(message))
             .map_err(|error| match error {
